@@ -156,11 +156,11 @@ impl ReturnType for BinOperation {
             | BinOperator::Xor => lhs,
             BinOperator::Partition => partition::return_type(lhs),
             BinOperator::Map => map::return_type(rhs),
-            BinOperator::At => lhs.index_result().unwrap(),
-            BinOperator::FunctionCall => lhs.return_type().unwrap(),
+            BinOperator::At => lhs.index_result().unwrap_or(Type::Never),
+            BinOperator::FunctionCall => lhs.return_type().unwrap_or(Type::Never),
             BinOperator::Assign => rhs,
             BinOperator::LShift | BinOperator::RShift | BinOperator::Modulo => Type::Int,
-            _ => lhs.mut_element_type().unwrap(),
+            _ => lhs.mut_element_type().unwrap_or(Type::Never),
         }
     }
 }
